@@ -44,6 +44,30 @@ instance : LawfulTyme Int where
   add_le_add := fun a b t h => by omega
   beq_zero := fun a => by simp
 
+instance : LawfulTyme Rat where
+  add_zero := Rat.add_zero
+  le_refl := fun _ => Rat.le_refl
+  le_trans := fun _ _ _ => Rat.le_trans
+  le_total := fun _ _ => Rat.le_total
+  le_add := fun a t h => by
+    have := (Rat.add_le_add_left (c := a)).mpr h
+    rwa [Rat.add_zero] at this
+  add_le_add := fun _ _ _ h => Rat.add_le_add_right.mpr h
+  beq_zero := fun a => by simp
+
+/-! ### IEEE doubles and these laws (an ASSUMPTION of the correspondence, stated here so that it is explicit)
+
+`Float` is opaque in Lean, so nothing below is a theorem.  For binary64 with round-to-nearest:
+* `add_zero` holds for every non-NaN `a` up to the sign of zero (`-0.0 + 0 = +0.0`, equal under `==`);
+* `le_refl`, `le_trans`, `le_total` hold for all non-NaN values (NaN is the only double not `≤` itself);
+* `le_add` (`0 ≤ t → a ≤ a + t`) and `add_le_add` (`a ≤ b → a + t ≤ b + t`) hold for all finite operands whose sums do not
+  overflow: rounding is monotone and `a` itself is representable — they do NOT need `+` to be exact or associative;
+* `beq_zero`: `(a == 0) = true → a = 0` fails for `a = -0.0` only (the code's `not tock` treats `-0.0` as asap, as `==` does).
+What doubles DO violate — associativity, `(a + t) - t = a`, `k·tock = tock + … + tock` — is used by NO theorem of C03/C04:
+`tick_exact` is stated with the iterated abstract `+` precisely for that reason.  So the assumption is: every tyme, tock,
+limit and yielded value of a run is finite and not NaN, no sum overflows, and no tock is `-0.0`.  Which law each theorem
+uses is listed in `notes/SchedT.md`. -/
+
 /-! ### projections of a trace -/
 
 /-- ids of the `recur` events, in trace order -/
